@@ -89,6 +89,8 @@ type rtCtr struct {
 	// request as the kubelet encoded it at creation / last update
 	ReqMilli int64
 	LimMilli int64
+	// CPU request at creation (the balloons policy never re-reads it)
+	CreateMilli int64
 	// fields last written by the kubelet through UpdateContainer (the cache
 	// does not record those, so they are not compared until the plugin sets them)
 	Dirty map[string]bool
@@ -388,11 +390,13 @@ type executor struct {
 	steps int
 	// a request failed after the policy had changed other containers; those
 	// changes stay undelivered until the next successful reply that can carry updates
-	failedPending bool
+	failedPending       bool
+	failedPendingBefore bool // value of failedPending when the current request started
 	// a policy event changed containers; no NRI reply has had a chance to carry the change yet
 	eventPending      bool
 	inRejectedReconfig bool
 	rejectedReconfigs int
+	reconfigured      bool // an accepted reconfiguration happened in this history
 	// set by onTold-style observers that find a violation while a reply is collected
 	pendingViolation *vfkit.Violation
 	initial          map[string]string
@@ -415,6 +419,7 @@ func (e *executor) snapshotStates() map[string]string {
 // exec runs one abstract operation; Noop=true when it had no valid target.
 func (e *executor) exec(op hcOp) *stepResult {
 	r := &stepResult{Op: op, PreState: e.snapshotStates()}
+	e.failedPendingBefore = e.failedPending
 	m, p := e.m, e.h.m.nri
 	switch op.Kind {
 	case "pod":
@@ -441,8 +446,11 @@ func (e *executor) exec(op hcOp) *stepResult {
 				return r
 			}
 			spec.Name = old.Spec.Name
-			if old.State != stStopped {
-				old.State = stStopped // the runtime considers the old instance dead
+			// the runtime considers every earlier instance of that name dead
+			for _, prev := range m.ctrsOfPod(pod.ID, stCreated, stRunning) {
+				if prev.Spec.Name == spec.Name {
+					prev.State = stStopped
+				}
 			}
 		} else {
 			var ok bool
@@ -459,7 +467,7 @@ func (e *executor) exec(op hcOp) *stepResult {
 				}
 			}
 			if n > 0 {
-				spec.Name = fmt.Sprintf("%s-%d", spec.Name, len(m.ctrsOfPod(pod.ID, stCreated, stRunning, stStopped, stCreateFailed)))
+				spec.Name = fmt.Sprintf("%s-%d", spec.Name, m.seq+1) // unique: container names are unique within a pod
 			}
 		}
 		if pod.Spec.QoS == "guaranteed" && spec.MilliCPU == 0 {
@@ -472,6 +480,7 @@ func (e *executor) exec(op hcOp) *stepResult {
 		if pod.Spec.QoS == "besteffort" {
 			c.ReqMilli = 0
 		}
+		c.CreateMilli = c.ReqMilli
 		m.ctrs[id] = c
 		nc := m.nriCtr(c)
 		nc.State = api.ContainerState_CONTAINER_UNKNOWN // not created yet from the runtime's view
@@ -632,6 +641,7 @@ func (e *executor) exec(op hcOp) *stepResult {
 		r.Pushes = e.h.stub.takePushes()
 		if r.CfgError == nil {
 			e.cfg = op.Cfg
+			e.reconfigured = true
 		} else {
 			e.rejectedReconfigs++
 		}
